@@ -1,7 +1,7 @@
 (* C02 property theorems. This file contains only statements closed by
    [exact lemma] and Print Assumptions. *)
 From V Require Import Common.Base C02.Graph C02.Order C02.SpecESM C02.Wrap C02.Resolve C02.ResolveSpec
-  C02.DataUrl C02.SpecDataUrl C02.OrderProofs C02.OrderEsmProofs C02.ResolveProofs C02.WrapProofs C02.DataUrlProofs C02.ClassifyProofs C02.Emit C02.EmitProofs C02.ResolveChainProofs C02.ScanEsmProofs C02.ResolveDen C02.SpecDenProofs C02.StarHitsProofs C02.StarDenProofs C02.LinkDenProofs C02.ResolveStarsProofs C02.EvalOrder C02.EvalOrderProofs C02.WrapMinProofs C02.WrapGraph C02.WrapExactProofs.
+  C02.DataUrl C02.SpecDataUrl C02.OrderProofs C02.OrderEsmProofs C02.ResolveProofs C02.WrapProofs C02.DataUrlProofs C02.ClassifyProofs C02.Emit C02.EmitProofs C02.ResolveChainProofs C02.ScanEsmProofs C02.ResolveDen C02.SpecDenProofs C02.StarHitsProofs C02.StarDenProofs C02.LinkDenProofs C02.ResolveStarsProofs C02.EvalOrder C02.EvalOrderProofs C02.WrapMinProofs C02.WrapGraph C02.WrapExactProofs C02.Interop C02.InteropProofs.
 From Coq Require Import Permutation.
 
 (* every file of the chunk is emitted at most once ("every module body runs at most once") *)
@@ -333,3 +333,45 @@ Theorem classified_mixed_order_is_native : forall g order keep_esm fmt st,
   forall entry, bundle_trace (egraph_of g order st) entry = native_trace (egraph_of g order st) entry.
 Proof. exact classified_order_is_native. Qed.
 Print Assumptions classified_mixed_order_is_native.
+
+(* the CommonJS side of binding resolution.  matchImportWithExport on an import whose record
+   targets a file with exports kind CommonJS answers with a namespace alias: the identifier becomes
+   the property access ns.alias on the import record's namespace symbol, no error is reported *)
+Theorem cjs_import_is_namespace_alias : forall g kinds resolved keep_esm t ni n,
+  import_of g t = Some ni -> ni_ns ni = Some n ->
+  advance g kinds resolved t ni = ICommonJS ->
+  match_import g kinds resolved keep_esm t
+  = Some (mkRes MNamespace (ni_alias ni) (Some (fst t, n)) 0 0 0, []).
+Proof. exact cjs_import_namespace_alias. Qed.
+Print Assumptions cjs_import_is_namespace_alias.
+
+(* the value of that property access on __toESM(require_x(), isNodeMode) is the value node gives
+   the import - "default" is module.exports, any other name the own key of module.exports - for every
+   interop shape of [interop_domain]: an ESM-typed importer (node mode), or a target without the
+   __esModule marker, or a name other than "default" *)
+Theorem interop_value_is_native_partial : forall typed form c name,
+  interop_domain typed c name = true -> bundle_get typed form c name = native_get c name.
+Proof. exact bundle_get_native. Qed.
+Print Assumptions interop_value_is_native_partial.
+
+(* the two together, from the graph to the value: for an import (default, named, or a property of
+   a namespace import) from a file classified CommonJS that uses exports / module *)
+Theorem cjs_import_value_is_native_partial : forall g kinds resolved keep_esm t ni n r o res ev typed form c,
+  import_of g t = Some ni -> ni_ns ni = Some n ->
+  record_of (getm g (fst t)) (ni_record ni) = Some r -> r_target r = Some o ->
+  kinds o = ECJS -> (m_uses_exports (getm g o) = true \/ m_uses_module (getm g o) = true) ->
+  match_import g kinds resolved keep_esm t = Some (res, ev) ->
+  interop_domain typed c (ni_alias ni) = true ->
+  ev = [] /\ mr_kind res = MNamespace /\ mr_ns res = Some (fst t, n) /\
+  import_value res typed form c = Some (native_get c (ni_alias ni)).
+Proof. exact cjs_import_value_all. Qed.
+Print Assumptions cjs_import_value_is_native_partial.
+
+(* without the domain the statement is false of the faithful model: "default" of a CommonJS file
+   carrying the __esModule marker, imported with import() by a file that is not ESM-typed, is
+   exports.default in the bundle and module.exports in node (known finding C02-G, replayed on the
+   real bundler on every run) *)
+Theorem interop_value_is_native_refuted : exists typed form c name,
+  bundle_get typed form c name <> native_get c name.
+Proof. exact bundle_get_refuted_ex. Qed.
+Print Assumptions interop_value_is_native_refuted.
